@@ -12,6 +12,7 @@ import (
 	"io"
 	"os"
 	"strings"
+	"syscall"
 
 	"verifharness/internal/core"
 	"verifharness/internal/imggen"
@@ -78,6 +79,12 @@ func c07Err(kind string) error {
 		return errWrappedEOF
 	case "io.ErrClosedPipe":
 		return io.ErrClosedPipe
+	case "EINTR": // an errno a retry wrapper might want to "handle"; here it is the source's final, sticky error
+		return syscall.EINTR
+	case "EAGAIN":
+		return syscall.EAGAIN
+	case "os.ErrDeadlineExceeded":
+		return os.ErrDeadlineExceeded
 	}
 	return src.ErrInjected
 }
@@ -117,6 +124,30 @@ func c07Load(data []byte, cs c07Case) c07Loaded {
 					}()
 				}
 				_ = f.Close()
+				return l
+			}
+		}
+		if cs.Seeker == "os.Pipe" {
+			// the read end of a pipe: an *os.File (so it has Seek, Stat ...) on which seeking fails
+			pr, pw, err := os.Pipe()
+			if err == nil {
+				go func() {
+					_, _ = pw.Write(data[:cs.Cut])
+					_ = pw.Close()
+				}()
+				l := c07Loaded{cs, loadWith(cs.Loader, pr), src.New(nil), data}
+				if l.res.Stream != nil {
+					func() {
+						defer func() {
+							if p := recover(); p != nil {
+								l.res.Panic = fmt.Sprintf("reading the returned stream panicked: %v", p)
+							}
+						}()
+						got, rerr, _ := src.ReadAllChunks(l.res.Stream, cs.ReadBuf, int64(cs.Cut)+1<<16)
+						l.res.Stream = &replayed{bytes.NewReader(got), rerr}
+					}()
+				}
+				_ = pr.Close()
 				return l
 			}
 		}
@@ -410,10 +441,10 @@ func runC07(r *core.Run) {
 				}
 				for _, l := range loaderNames {
 					extras = append(extras,
-						extraUnit{ji, cut, l, "err", core.Pick(rg, []string{"io.ErrUnexpectedEOF", "wrapped io.ErrUnexpectedEOF", "wrapped io.EOF", "io.ErrClosedPipe"})},
+						extraUnit{ji, cut, l, "err", core.Pick(rg, []string{"io.ErrUnexpectedEOF", "wrapped io.ErrUnexpectedEOF", "wrapped io.EOF", "io.ErrClosedPipe", "EINTR", "EAGAIN", "os.ErrDeadlineExceeded"})},
 						extraUnit{ji, cut, l, "seek", "bytes.Reader"})
 					if k%8 == 0 {
-						extras = append(extras, extraUnit{ji, cut, l, "seek", "os.File"})
+						extras = append(extras, extraUnit{ji, cut, l, "seek", "os.File"}, extraUnit{ji, cut, l, "seek", "os.Pipe"})
 					}
 					extras = append(extras, extraUnit{ji, cut, l, "drain", fmt.Sprintf("copy@%d", rg.Intn(64))}, extraUnit{ji, cut, l, "bufio", core.Pick(rg, []string{"16", "4096", "65536"})},
 						extraUnit{ji, cut, l, "drain", fmt.Sprintf("zero-reads@%d", core.Pick(rg, []int{1, 5, 4096}))},
